@@ -1,3 +1,4 @@
+import Emboss.Model.Bounds
 /-
 Impl model for C13 — expression typing (compiler/front_end/type_check.py,
 compiler/util/attribute_util.py, the attribute-type table of attribute_checker.py).
@@ -312,7 +313,57 @@ structure Attr where
   kind : AKind
   isSigned : Bool    -- the attribute is `is_signed` (for `attrLate`)
   val : AVal
+  cst : Option Emboss.Bounds.Expr
+                     -- the same value in C05's expression language (literal values, ranges of
+                     -- the physical leaves, definitions of referenced virtual fields), when the
+                     -- harness can supply it; `none`: constancy falls back to closedness
   deriving Repr
+
+mutual
+/-- 3ef2c18 on top of C05's model: since that commit `ir_util.constant_value` gives "no known
+value" for a static reference to a virtual field whose type is not a single value (it used to
+fail an assertion, which is what `Emboss.Bounds.cv` still says: `atypeConstCV … = .crash`).  Such
+a reference then behaves exactly like a plain reference to the field (`vref`: unknown to
+`constant_value`, same bounds), so it is rewritten into one; references to constant fields are
+left alone.  (Redundant once C05's `atypeConstCV` says `.unknown` there.) -/
+def normB : Emboss.Bounds.Expr → Emboss.Bounds.Expr
+  | .cref e =>
+    if Emboss.Bounds.atypeConstCV (Emboss.Bounds.abs (normB e)) = .crash then .vref (normB e)
+    else .cref (normB e)
+  | .vref e => .vref (normB e)
+  | .bin op l r => .bin op (normB l) (normB r)
+  | .choice c t f => .choice (normB c) (normB t) (normB f)
+  | .max args => .max (normBList args)
+  | .upper e => .upper (normB e)
+  | .lower e => .lower (normB e)
+  | .present a c => .present (normB a) (normB c)
+  | e => e
+def normBList : List Emboss.Bounds.Expr → List Emboss.Bounds.Expr
+  | [] => []
+  | e :: es => normB e :: normBList es
+end
+
+/-- `ir_util.is_constant(value)` (`constant_value(value) is not None`), by C05's model of
+`ir_util.constant_value`: a known value — neither "unknown" nor an exception. -/
+def constIntB (b : Emboss.Bounds.Expr) : Bool :=
+  match Emboss.Bounds.cv b with
+  | .val _ => true
+  | _ => false
+
+/-- `value.type.boolean.has_field("value")` once `expression_bounds.compute_constants` has run,
+by C05's model of that pass. -/
+def constBoolB (b : Emboss.Bounds.Expr) : Bool :=
+  match Emboss.Bounds.abs b with
+  | some (.bool (some _)) => true
+  | _ => false
+
+/-- Is the value `e` of attribute `a` constant as far as the validators can tell?  C05's verdict
+when the value is available in C05's language (so `false && x == 1`, `$upper_bound(x)`, a static
+reference to `let v = x * 0` count as constant, as they do in the compiler); closedness otherwise. -/
+def Attr.constOk (a : Attr) (e : Expr) : Bool :=
+  match a.cst with
+  | none => closed e
+  | some b => if a.kind = .boolConst then constBoolB (normB b) else constIntB (normB b)
 
 /-- A located top-level expression: the module file it is written in and the expression. -/
 abbrev FExpr := FileId × Expr
@@ -408,7 +459,7 @@ def attrOne (a : Attr) : PassRes :=
   | .boolConst, .str _ => ⟨[err a.file a.l .attrConstBool], none⟩
   | .boolConst, .expr e =>
     if (tc a.file e).ty = .none then ⟨[], some .attrTypeNone⟩
-    else if (tc a.file e).ty ≠ .bool || !closed e then ⟨[err a.file a.l .attrConstBool], none⟩
+    else if (tc a.file e).ty ≠ .bool || !a.constOk e then ⟨[err a.file a.l .attrConstBool], none⟩
     else ⟨[], none⟩
   | .bool, .str _ => ⟨[err a.file a.l .attrBool], none⟩
   | .bool, .expr e =>
@@ -418,7 +469,7 @@ def attrOne (a : Attr) : PassRes :=
   | .intConst, .expr e =>
     if (tc a.file e).ty = .none then ⟨[], some .attrTypeNone⟩
     else ⟨if (tc a.file e).ty ≠ .int then [err a.file a.l .attrInt]
-          else if !closed e then [err a.file a.l .attrConst] else [], none⟩
+          else if !a.constOk e then [err a.file a.l .attrConst] else [], none⟩
   | .strList, .str v => ⟨if v then [] else [err a.file a.l .attrStr], none⟩
   | .strList, .expr _ => ⟨[err a.file a.l .attrStr], none⟩
   | .backEnds, .str v => ⟨if v then [] else [err a.file a.l .attrStr], none⟩
